@@ -6,7 +6,7 @@ FnList(f) == LET as == Ascending(DOMAIN f) IN [k \in 1..Len(as) |-> << as[k], f[
 Eval == /\ out = 0 /\ out' = 1 /\ i' = i
         /\ LET r  == Call(Cases[i])
                tq == [a \in FullAssets(Cases[i]) |-> CHOOSE x \in r.target[a] : TRUE]      \* unique on the exact grid
-           IN  PrintT(<< "R", i, IF "err" \in DOMAIN r THEN 1 ELSE 0, FnList(r.alloc),
+           IN  PrintT(<< "R", i, IF "err" \in DOMAIN r THEN 1 ELSE 0, FnList(r.recorded),
                          IF "err" \in DOMAIN r THEN << >> ELSE FnList(tq),
                          IF "err" \in DOMAIN r THEN << >> ELSE Orders(Cases[i], tq) >>)
 Spec == Init /\ [][Eval]_<< i, out >>
